@@ -1,9 +1,12 @@
 """C18 — Redis and Memory stream brokers agree.
 
-Redis side  = the Lua scripts of /repo/internal/redis_lua, re-translated to Lean on every run
-              (lua2lean.py → Gen/Lua/*.lean) and executed over the trusted Redis/Lua model
-              (Model/{LuaVal,Redis,LuaRedis}.lean) through a hand model of the Go glue of
-              broker_redis.go (Model/RedisGlue.lean);  driver: lean/Drivers/C18.lean.
+Redis side  = the REAL RedisBroker (Go glue of broker_redis.go: argument marshalling, reply parsing,
+              historyStream/historyList post-processing, handleRedisClientMessage) talking RESP2 to an
+              in-process fake endpoint (harness/zz_verif_redisfake_test.go) that forwards every command to the
+              Lean driver drv_c23: the trusted Redis/Lua model (Model/{LuaVal,Redis,LuaRedis}.lean) running
+              the Lua scripts of /repo/internal/redis_lua, re-translated to Lean on every run (lua2lean.py →
+              Gen/Lua/*.lean).  Additionally the hand model of that Go glue (Model/RedisGlue.lean, driver
+              lean/Drivers/C18.lean — the one the Lean examples talk about) is compared with the real glue.
 Memory side = the REAL MemoryBroker, driven by harness/zz_verif_c18_test.go inside a synctest bubble.
 
 Both run the same op lines; the property *is* that the outputs agree (offsets, epochs as first-seen
@@ -21,7 +24,7 @@ sys.path.insert(0, os.path.dirname(os.path.abspath(__file__)))
 import c18lib  # noqa: E402
 from vlib.core import ddmin, REPO  # noqa: E402
 
-HARNESS = ["props/C18/harness/zz_verif_c18_test.go"]
+HARNESS = ["props/C18/harness/zz_verif_c18_test.go", "props/C18/harness/zz_verif_redisfake_test.go"]
 TWO53 = 2 ** 53
 
 
@@ -149,12 +152,29 @@ def classify(sc, j, mem, red):
 
 
 # ------------------------------------------------------------------------------------------ run
-def run_both(ctx, binary, ops):
-    impl = ctx.go_run(binary, "TestVerifC18Mem", ops)
+def drivers(ctx):
     if not hasattr(ctx, "_drv"):
-        ctx._drv = ctx.lean_driver_build()  # once per run (every lake call takes the global build lock)
-    model = ctx.run_lines([ctx._drv], ops) if ctx._drv else None
-    return impl, model
+        # once per run (every lake call takes the global build lock)
+        ctx._drv = ctx.lean_driver_build()
+        ctx._srv = ctx.lean_driver_build("drv_c23")
+    return ctx._drv, ctx._srv
+
+
+def run_both(ctx, binary, ops):
+    """memory side (real MemoryBroker) and Redis side (REAL RedisBroker Go code over the fake endpoint that is
+    backed by the Lean Redis model + translated scripts)"""
+    _, srv = drivers(ctx)
+    impl = ctx.go_run(binary, "TestVerifC18Mem", ops)
+    if srv is None:
+        return impl, None
+    red = ctx.go_run(binary, "TestVerifC18Redis", ops, env={"VERIF_REDIS_DRV": srv})
+    return impl, red
+
+
+def run_hand_model(ctx, ops):
+    """the hand model of the Go glue (Model/RedisGlue.lean) over the same scripts and Redis model"""
+    drv, _ = drivers(ctx)
+    return ctx.run_lines([drv], ops) if drv else None
 
 
 def first_diff(sc, a, m):
@@ -203,7 +223,7 @@ def report_diff(ctx, binary, sc, a, m, j, nviol):
                   signature=sig,
                   replay={"ops": small, "memory_real": i2, "redis_model": m2, "first_diff_index": j2,
                           "note": "memory_real = real MemoryBroker under synctest; redis_model = translated Lua "
-                                  "scripts over the Redis model + Go glue model (lean/Drivers/C18.lean)"})
+                                  "scripts over the Redis model (lean/Drivers/C23.lean)"})
 
 
 def run(ctx):
@@ -219,11 +239,12 @@ def run(ctx):
         "single non-cluster shard, plain PUB/SUB; protobuf marshalling replaced by a round-tripping stand-in",
         "all ops of a scenario happen at increasing sub-second phases so that second-granular (memory) and "
         "millisecond-granular (Redis) TTLs give the same verdict; TTLs are whole seconds",
-        "the Go glue of broker_redis.go is a hand model (RedisGlue.lean) — it is not executed",
+        "the Go glue of broker_redis.go that runs is the real one; its hand model (RedisGlue.lean) is compared "
+        "with it on every run",
     ]
     ctx.trusted_base = ["Lean 4.33.0 kernel", "axioms: propext, Classical.choice, Quot.sound",
                         "Model/LuaVal.lean, Model/Redis.lean (Lua + Redis semantics)", "lua2lean.py translator",
-                        "Model/RedisGlue.lean (hand model of broker_redis.go)", "harness + canonicalisation"]
+                        "fake RESP2 endpoint + harness + canonicalisation"]
     gen_ok = regen(ctx)
     proofs_ok = ctx.lean_obligations() and gen_ok
     binary = ctx.go_test_binary(".", HARNESS)
@@ -289,5 +310,26 @@ def run(ctx):
             nviol += 1
     ctx.traces_validated = len(scenarios)
     ctx.extra["scenarios_with_a_disagreement"] = ndiff
+    # correspondence of the hand model of the Go glue (RedisGlue.lean, the one the Lean examples/theorems in
+    # Props/C18.lean talk about) with the real Go glue: same ops, same Redis model, same scripts
+    hand = run_hand_model(ctx, ops)
+    nh = 0
+    if hand is not None and model:
+        pos = 0
+        for sc in scenarios:
+            a, m = model[pos:pos + len(sc)], hand[pos:pos + len(sc)]
+            pos += len(sc)
+            j = first_diff(sc, a, m)
+            if j is None:
+                continue
+            nh += 1
+            if nh <= 2:
+                ctx.violation("correspondence",
+                              f"hand model of the Go glue differs from the real RedisBroker at `{sc[j]}`: "
+                              f"real `{a[j] if j < len(a) else None}` vs hand model `{m[j] if j < len(m) else None}`",
+                              signature={"kind": "glue-model-diff", "op": sc[j].split()[0]},
+                              replay={"ops": sc[:j + 1], "redis_real_glue": a[:j + 1], "hand_model": m[:j + 1]},
+                              no_input=True)
+    ctx.extra["glue_model_disagreements"] = nh
     if not proofs_ok:
         ctx.proof_broken()
